@@ -6,7 +6,7 @@ ids=${*:-$(ls seeded)}
 ok=0; bad=0
 if [ -n "$(git -C /repo status --porcelain)" ]; then echo "/repo is not clean"; exit 2; fi
 for id in $ids; do
-  prop=$(python3 -c "import json;print(json.load(open('seeded/$id/meta.json'))['property'])")
+  prop=$(python3 -c "import json;m=json.load(open('seeded/$id/meta.json'));print(m.get('caught_by_quick_check_of') or m['property'])")
   git -C /repo apply /verif/seeded/$id/patch.diff || { echo "$id: patch does not apply"; bad=$((bad+1)); continue; }
   out=$(VERIF_NO_EVIDENCE=1 ./check $prop --tier quick 2>&1); rc=$?
   git -C /repo checkout -- .
